@@ -342,14 +342,18 @@ def b_tokens(u, rng, n):
     La = rng.range(20, 200)
     ident = "v" + "".join(rng.choice("abcdefghij") for _ in range(La))
     strlit = "".join(rng.choice("abcdefgh ") for _ in range(rng.range(40, 300)))
+    # an identifier with escaped bytes above 127 (the program text is encoded as latin-1)
+    hid = "h" + "".join("_" + chr(rng.choice([0xa9, 0xc3, 0xe9, 0xf0, 0xf3, 0xfd, 0x80 + rng.below(0x7e)])) for _ in range(rng.range(1, 3))) + "z"
     d = '''
+%(hid)sf(n: SI): SI == n + 1;
 tok%(u)s(n: SI): Integer == {
 	s: Integer := 0;
 %(lines)s
 	%(ident)s: String := "%(strlit)s";
-	(s + (#%(ident)s)::Integer) rem 1000000007
+	%(hid)s: Integer := 7;
+	(s + %(hid)s + (%(hid)sf(n))::Integer + (#%(ident)s)::Integer) rem 1000000007
 }
-''' % dict(u=u, lines="\n".join(lines), ident=ident, strlit=strlit)
+''' % dict(u=u, lines="\n".join(lines), ident=ident, strlit=strlit, hid=hid)
     return d, [], "tok%s(%d)" % (u, 1)
 
 
